@@ -209,3 +209,108 @@ def c02_pair(k1: int, k2: int, kind2: int, payload: int) -> bool:
     if kind2 == 1 and any(tuple(e["path"]) == pts[k2] for e in resp.get("errors", [])) and not user_error_kept(resp, pts[k2], "user msg", 7):
         return verdict(False)
     return verdict(True)
+
+
+# ---- a null that is PRODUCED during completion (not returned by the resolver): a custom scalar whose coerce_output answers None, a type-level
+# on_pre_output_coercion hook answering None — at nullable / non-null positions, directly and as list items -------------------------------
+from vf.ref.model import model_from_sdl  # noqa: E402
+from vf.env import build, pickb  # noqa: E402
+from tartiflette import Scalar, Directive  # noqa: E402
+
+SDL_N = """
+directive @mask on OBJECT
+scalar Code
+type Profile @mask { bio: String }
+type User { code: Code! ncode: Code profile: Profile! nprofile: Profile codes: [Code!] ncodes: [Code] profiles: [Profile!] id: Int }
+type Query { user: User  strict: User!  users: [User]  nn: Int }
+"""
+MODEL_N = model_from_sdl(SDL_N)
+
+
+def _code_out(v):
+    # "blank to null": negative numbers have no code
+    if isinstance(v, int) and v < 0:
+        return None
+    return v
+
+
+MODEL_N["custom"] = {"Code": {"out": _code_out}}
+
+
+class _Code:
+    def coerce_output(self, v):
+        return _code_out(v)
+
+    def coerce_input(self, v):
+        return v
+
+    def parse_literal(self, ast):
+        return getattr(ast, "value", None)
+
+
+class _Mask:
+    async def on_pre_output_coercion(self, directive_args, next_directive, value, ctx, info):
+        if isinstance(value, dict) and value.get("hidden"):
+            return None
+        return await next_directive(value, ctx, info)
+
+
+async def _res_n(parent, args, ctx, info):
+    return world.read(parent, info.field_name)
+
+
+def _ref_resolve_n(ptype, fname, parent, args, path):
+    v = world.read(parent, fname)
+    # the type-level hook of Profile turns a hidden profile into null before completion: for the reference that IS the resolved value
+    if fname in ("profile", "nprofile") and isinstance(v, dict) and v.get("hidden"):
+        return None
+    if fname == "profiles" and isinstance(v, list):
+        return [None if isinstance(x, dict) and x.get("hidden") else x for x in v]
+    return v
+
+
+ENGS_N = []
+for _i, _kw in enumerate(({}, {"coerce_list_concurrently": False, "coerce_parent_concurrently": False})):
+    _nm = "c02n_%d" % _i
+    Scalar("Code", schema_name=_nm)(_Code)
+    Directive("mask", schema_name=_nm)(_Mask())
+    ENGS_N.append(build(SDL_N, _nm, custom_default_resolver=_res_n, query_cache_decorator=None, **_kw))
+DOC_N = "{ user { id %s } strict { id %s } users { id %s } nn }"
+SITES_N = ["code", "ncode", "profile { bio }", "nprofile { bio }", "codes", "ncodes", "profiles { bio }"]
+ASTS_N = {(s, w): gqlfront.parse(DOC_N % tuple(SITES_N[s] if i == w else "" for i in range(3))) for s in range(len(SITES_N)) for w in range(3)}
+
+
+def _user(site, payload, hidden):
+    prof = {"bio": "b", "hidden": hidden}
+    return {"id": 1, "code": payload, "ncode": payload, "profile": prof, "nprofile": prof, "codes": [1, payload, 2], "ncodes": [payload, 1],
+            "profiles": [{"bio": "x", "hidden": False}, prof]}
+
+
+@obligation(tier="quick", timeout=200, shards=[{"site": s, "eng": e} for s in range(len(SITES_N)) for e in range(2)],
+            samples=[{"payload": 5, "hidden": False, "where": 0}, {"payload": -1, "hidden": True, "where": 1}, {"payload": -7, "hidden": True, "where": 2}],
+            symbolic=["payload: int (unbounded) — the custom scalar's coerce_output answers null for negative values", "hidden: bool — the type-level output hook answers null"],
+            selectors=["where: under the nullable `user`, the non-null `strict`, the list `users`", "shard: position (T!, T, object!, object, [T!], [T], [object!]), concurrent/sequential coercion"],
+            bounds="7 positions x 3 parents x 2 engines",
+            note="a null produced DURING completion (custom scalar coerce_output / type-level hook answering null) at a non-null position is a field error that propagates to the nearest nullable "
+                 "ancestor exactly like a resolver returning null; at a nullable position it is simply null")
+def c02_coerced_null(payload: int, hidden: bool, where: int) -> bool:
+    """
+    post: _
+    """
+    sh = shard()
+    where = pick(where, 3)
+    hidden = pickb(hidden)
+    u = _user(sh["site"], payload, hidden)
+    data = {"user": u, "strict": u, "users": [dict(u, id=2), u], "nn": 4}
+    text = DOC_N % tuple(SITES_N[sh["site"]] if i == where else "" for i in range(3))
+    ast = ASTS_N[(sh["site"], where)]
+    ok, resp = safe(lambda: env.run(ENGS_N[sh["eng"]].execute(text, initial_value=data)))
+    observe(text, resp)
+    if not ok:
+        return verdict(False)
+    ref = Ref(MODEL_N, ast, _ref_resolve_n, None)
+    exp = ref.execute(None, {}, data)
+    observe(("expected", exp, ref.errors, ref.nulled))
+    if to_pairs(resp.get("data")) != exp:
+        return verdict(False)
+    return verdict(errors_ok(resp, ref) and locations_ok(resp, ref))
